@@ -103,7 +103,7 @@ def classify(diff):
 # ------------------------------------------------------------------------------------------------ C02
 def run_c02(a, rnd, failures, stats):
     n = 220 if a.tier == "quick" else 2500
-    protos = [(f"model:{k}", mk()) for k, mk in models.ALL.items()]
+    protos = [(f"model:{k}", mk()) for k, mk in list(models.ALL.items()) + list(models.SERDE_EXTRA.items())]
     protos += [(f"gen#{i}/ir{irv}", p) for i, (irv, p) in enumerate(protogen.models(rnd, n))]
     for label, p in protos:
         stats["evaluations"] += 1
@@ -343,7 +343,7 @@ def edits(model, rnd):
 
 def run_c03(a, rnd, failures, stats):
     n = 160 if a.tier == "quick" else 1500
-    protos = [(f"model:{k}", mk()) for k, mk in models.ALL.items()]
+    protos = [(f"model:{k}", mk()) for k, mk in list(models.ALL.items()) + list(models.SERDE_EXTRA.items())]
     protos += [(f"gen#{i}/ir{irv}", p) for i, (irv, p) in enumerate(protogen.models(rnd, n))]
     for label, p in protos:
         for variant in ("as-loaded", "edited"):
@@ -391,6 +391,61 @@ def run_c03(a, rnd, failures, stats):
             s1, s2 = model_sig(m, with_tensor_names=False), model_sig(m2, with_tensor_names=False)
             if s1 != s2:
                 failures.append(f"{tag}: IR -> proto -> IR is not isomorphic: {sig_diff(s1, s2)}"[:520])
+    for label, m in api_models():
+        stats["evaluations"] += 1
+        stats["distinct"].add((label, ()))
+        try:
+            s1 = model_sig(m, with_tensor_names=False)
+            m2 = ir.from_proto(ir.to_proto(m))
+            s2 = model_sig(m2, with_tensor_names=False)
+        except Exception as e:  # noqa: BLE001
+            failures.append(f"{label}: round trip raised {type(e).__name__}: {str(e)[:200]}")
+            continue
+        if s1 != s2:
+            failures.append(f"{label}: IR -> proto -> IR is not isomorphic: {sig_diff(s1, s2)}"[:520])
+
+
+
+def api_models():
+    """IR models built through the public API only (never by from_proto), so that a defect of the deserializer cannot hide
+    on both sides of the comparison: inner scopes whose own values carry the name of an outer value."""
+    out = []
+    F32 = ir.TensorType(ir.DataType.FLOAT)
+
+    def val(name, shape=(2, 3)):
+        return ir.Value(name=name, type=F32, shape=ir.Shape(list(shape)))
+
+    def node(op, inputs, out_name, attrs=(), name=None):
+        n = ir.Node("", op, inputs=list(inputs), num_outputs=1, attributes=list(attrs), name=name or f"n_{out_name}")
+        n.outputs[0].name = out_name
+        n.outputs[0].type = F32
+        n.outputs[0].shape = ir.Shape([2, 3])
+        return n
+
+    for variant in ("body-input", "branch-local", "two-levels"):
+        x = val("x")
+        outer_h = node("Relu", [x], "h")
+        if variant == "body-input":
+            h_in = val("h")                                     # the body's own input, same name as the outer value
+            neg = node("Neg", [h_in], "h_next")
+            inner = ir.Graph([h_in], [neg.outputs[0]], nodes=[neg], name="body")
+            ctl = node("Loop", [x], "r", attrs=[ir.AttrGraph("body", inner)])
+        elif variant == "branch-local":
+            local = node("Sub", [x, x], "h", name="local_h")    # a node output named like the outer value
+            use = node("Abs", [local.outputs[0]], "b_out")
+            inner = ir.Graph([], [use.outputs[0]], nodes=[local, use], name="branch")
+            ctl = node("If", [x], "r", attrs=[ir.AttrGraph("then_branch", inner)])
+        else:
+            local = node("Sub", [x, x], "h", name="local_h")
+            deep_use = node("Abs", [local.outputs[0]], "d_out")
+            deep = ir.Graph([], [deep_use.outputs[0]], nodes=[deep_use], name="deep")
+            holder = node("If", [x], "hold", attrs=[ir.AttrGraph("then_branch", deep)])
+            inner = ir.Graph([], [holder.outputs[0]], nodes=[local, holder], name="branch")
+            ctl = node("If", [x], "r", attrs=[ir.AttrGraph("then_branch", inner)])
+        fin = node("Add", [outer_h.outputs[0], ctl.outputs[0]], "y")
+        g = ir.Graph([x], [fin.outputs[0]], nodes=[outer_h, ctl, fin], name="main", opset_imports={"": 18})
+        out.append((f"api:shadowing/{variant}", ir.Model(g, ir_version=10)))
+    return out
 
 
 def sig_diff(a, b, path="model"):
